@@ -20,12 +20,18 @@ Print Assumptions C19_attr_value_kept.
 Theorem C19_normalize_inline_idempotent : forall s, normalize_inline (normalize_inline s) = normalize_inline s.
 Proof. exact normalize_inline_idempotent. Qed.
 Print Assumptions C19_normalize_inline_idempotent.
-(* 4. text escaping: a closed mustache expression is copied byte for byte and escaping resumes after it;
+(* 4. text escaping: a closed mustache expression that holds no tag opener is copied byte for byte and escaping resumes after it;
       text without a mustache opener has every & < > replaced by its reference and nothing else *)
-Theorem C19_mustache_kept : forall inside rest fuel, no_close (inside ++ [x7d]) = true ->
+Theorem C19_mustache_kept : forall inside rest fuel,
+  no_close (inside ++ [x7d]) = true -> no_tag_open ([x7b; x7b] ++ inside ++ [x7d; x7d]) = true ->
   esc_text (S fuel) (x7b :: x7b :: inside ++ x7d :: x7d :: rest) = [x7b; x7b] ++ inside ++ [x7d; x7d] ++ esc_text fuel rest.
-Proof. exact esc_text_mustache. Qed.
+Proof. exact esc_text_mustache_kept. Qed.
 Print Assumptions C19_mustache_kept.
+(* ... an expression in which a "<" is followed by a letter, "/", "!" or "?" has exactly those written as
+   references, so that whatever it holds the copy cannot open a tag *)
+Theorem C19_mustache_inert : forall s, no_tag_open (esc_must s) = true.
+Proof. exact esc_must_inert. Qed.
+Print Assumptions C19_mustache_inert.
 Theorem C19_plain_text_escaped : forall s, no_open s = true -> forall fuel, length s < fuel ->
   esc_text fuel s = flat_map esc_t1 s.
 Proof. exact esc_text_plain. Qed.
